@@ -185,3 +185,158 @@ Definition sanctioned (s : dsite) : bool := sanctioned_in sanctioned_sites s.
 (* the sites where a listed operation family allocates (G1, G2) or addresses (E1: a zero-stride view NumPy refuses
    from 2^60 elements on) a product of extents *)
 Definition product_site (s : dsite) : bool := sanctioned_in product_sites s.
+
+(* ------------------------------------------------------------------ in-place writes work on private copies *)
+
+(* why a name that is written in place (Gen/S_dense_sites.v inplace_sites) never aliases an operand's array *)
+Inductive wreason :=
+| WFresh        (* bound to a fresh allocation / copy / arithmetic result / kernel result made in this function *)
+| WList         (* a Python list, tuple, dict or None: not array data *)
+| WKernelReads  (* an operand's array handed to an internal kernel that only READS that argument (the kernel's
+                   written parameters are rows of this table themselves) *)
+| WOutParam     (* an output-buffer parameter of an internal kernel; every caller allocates it (np.empty) right before *)
+| WUserOut      (* the out= argument of the public API: writing it is the contract *)
+| WMemo         (* a memo dictionary (dtype-keyed kernel cache, the per-call match cache) *)
+| WRebound      (* a parameter / unpacked value that is rebound to a private copy before the first write *)
+| WView         (* a view of an array allocated in this function *).
+
+Record rwrite := mkRW { rw_file : string; rw_func : string; rw_name : string; rw_bind : string; rw_why : wreason }.
+
+Definition write_matches (s : wsite) (r : rwrite) : bool :=
+  String.eqb (w_file s) (rw_file r) && String.eqb (w_func s) (rw_func r)
+  && String.eqb (w_name s) (rw_name r) && String.eqb (w_bind s) (rw_bind r).
+
+Definition reviewed_writes : list rwrite := [
+  mkRW "_umath.py" "_get_expanded_coords_data" "expanded_coords" "np.empty((len(broadcast_shape), all_idx.shape[1]), dtype=np.intp)" WFresh;
+  mkRW "_umath.py" "_get_expanded_coords_data" "expanded_coords" "all_idx if len(data) else np.empty((0, all_idx.shape[1]), dtype=np.intp)" WFresh;
+  mkRW "_umath.py" "_cartesian_product" "out" "np.empty(rows * cols, dtype=dtype)" WFresh;
+  mkRW "_umath.py" "_get_matching_coords" "dims" "np.zeros(len(coords), dtype=np.uint8)" WFresh;
+  mkRW "_umath.py" "broadcast_to" "<argument 0 of _get_expanded_coords_data>" "x.coords" WKernelReads;
+  mkRW "_umath.py" "broadcast_to" "<argument 1 of _get_expanded_coords_data>" "x.data" WKernelReads;
+  mkRW "_umath.py" "_Elemwise.__init__" "out_kwargs" "{}" WMemo;
+  mkRW "_umath.py" "_Elemwise._get_func_coords_data" "unmatched_mask" "~equivalent(func_data, self.fill_value)" WFresh;
+  mkRW "_umath.py" "_Elemwise._get_func_coords_data" "unmatched_mask" "np.ones(func_array.nnz, dtype=np.bool_)" WFresh;
+  mkRW "_umath.py" "_Elemwise._get_func_coords_data" "out" "np.empty(func_args[0].shape, dtype=self.dtype)" WFresh;
+  mkRW "_umath.py" "_Elemwise._match_coo" "cache" "kwargs.pop('cache', None)" WMemo;
+  mkRW "_umath.py" "_Elemwise._match_coo" "<argument 0 of _get_expanded_coords_data>" "matched_arrays[0].coords" WKernelReads;
+  mkRW "_umath.py" "_Elemwise._match_coo" "<argument 0 of _get_reduced_coords>" "arg.coords" WKernelReads;
+  mkRW "_coo/core.py" "COO.todense" "x" "np.full(self.shape, self.fill_value, self.dtype)" WFresh;
+  mkRW "_coo/core.py" "COO.from_scipy_sparse" "coords" "np.empty((2, x.nnz), dtype=x.row.dtype)" WFresh;
+  mkRW "_coo/core.py" "COO._reduce_calc" "<argument 0 of _grouped_reduce>" "a.data" WKernelReads;
+  mkRW "_coo/core.py" "COO._reduce_calc" "<argument 1 of _grouped_reduce>" "a.coords[0]" WKernelReads;
+  mkRW "_coo/core.py" "COO.mT" "axis" "list(range(self.ndim))" WList;
+  mkRW "_coo/core.py" "COO.swapaxes" "axes" "list(range(self.ndim))" WList;
+  mkRW "_coo/core.py" "COO.reshape" "coords" "np.empty((len(shape), self.nnz), dtype=idx_dtype)" WFresh;
+  mkRW "_coo/core.py" "COO._tocsr" "indptr" "np.zeros(self.shape[0] + 1, dtype=np.int64)" WFresh;
+  mkRW "_coo/indexing.py" "getitem" "<argument 0 of _mask>" "x.coords" WKernelReads;
+  mkRW "_coo/indexing.py" "_ind_ar_from_indices" "ind_ar" "np.empty((len(indices), 3), dtype=np.intp)" WFresh;
+  mkRW "_coo/indexing.py" "_compute_multi_axis_multi_mask" "full_idx" "np.empty((len(indices) + len(adv_idx_pos), 3), dtype=np.intp)" WFresh;
+  mkRW "_coo/indexing.py" "_compute_multi_mask" "full_idx" "np.empty((len(indices) + 1, 3), dtype=np.intp)" WFresh;
+  mkRW "_coo/indexing.py" "array_from_list_intp" "a" "np.empty(n, dtype=np.intp)" WFresh;
+  mkRW "_coo/common.py" "concatenate" "shape" "list(arrays[0].shape)" WList;
+  mkRW "_coo/common.py" "concatenate" "coords" "np.concatenate([x.coords for x in arrays], axis=1)" WFresh;
+  mkRW "_coo/common.py" "concatenate" "coords" "coords.astype(np.min_scalar_type(max(shape)))" WFresh;
+  mkRW "_coo/common.py" "stack" "new" "np.empty(shape=(coords.shape[1],), dtype=np.intp)" WFresh;
+  mkRW "_coo/common.py" "roll" "coords" "np.copy(a.coords)" WFresh;
+  mkRW "_coo/common.py" "diagonal" "diag_shape" "[a.shape[axis] for axis in diag_axes]" WList;
+  mkRW "_coo/common.py" "diagonal" "<argument 0 of _diagonal_idx>" "a.coords" WKernelReads;
+  mkRW "_coo/common.py" "isposinf" "out" "<parameter>" WUserOut;
+  mkRW "_coo/common.py" "isneginf" "out" "<parameter>" WUserOut;
+  mkRW "_coo/common.py" "clip" "out" "<parameter>" WUserOut;
+  mkRW "_coo/common.py" "flip" "new_coords" "x.coords.copy()" WFresh;
+  mkRW "_coo/common.py" "unique_counts" "counts" "<item 1 of> np.unique(x.data, return_counts=True)" WFresh;
+  mkRW "_coo/common.py" "unique_counts" "counts" "np.concatenate([[x.size - x.nnz], counts])" WFresh;
+  mkRW "_coo/common.py" "unique_counts" "counts" "counts[sorted_indices]" WFresh;
+  mkRW "_coo/common.py" "sort" "<argument 0 of _sort_coo>" "x.coords" WKernelReads;
+  mkRW "_coo/common.py" "sort" "<argument 1 of _sort_coo>" "x.data" WKernelReads;
+  mkRW "_coo/common.py" "_sort_coo" "result_indices" "np.empty_like(sort_coords)" WFresh;
+  mkRW "_coo/common.py" "_sort_coo" "data" "<parameter>" WRebound;
+  mkRW "_coo/common.py" "_sort_coo" "data" "data.copy()" WFresh;
+  mkRW "_coo/common.py" "_sort_coo" "indices" "np.arange(group_size)" WFresh;
+  mkRW "_coo/common.py" "_arg_minmax_common" "<argument 0 of _compute_minmax_args>" "x.coords.copy()" WFresh;
+  mkRW "_coo/common.py" "_arg_minmax_common" "<argument 1 of _compute_minmax_args>" "x.data.copy()" WFresh;
+  mkRW "_coo/common.py" "matrix_transpose" "transpose_axes" "list(range(x.ndim))" WList;
+  mkRW "_common.py" "tensordot" "axes_a" "<item 0 of> axes" WRebound;
+  mkRW "_common.py" "tensordot" "axes_a" "list(axes_a)" WList;
+  mkRW "_common.py" "tensordot" "axes_a" "list(range(-axes, 0))" WList;
+  mkRW "_common.py" "tensordot" "axes_a" "[axes_a]" WList;
+  mkRW "_common.py" "tensordot" "axes_b" "<item 1 of> axes" WRebound;
+  mkRW "_common.py" "tensordot" "axes_b" "list(axes_b)" WList;
+  mkRW "_common.py" "tensordot" "axes_b" "list(range(axes))" WList;
+  mkRW "_common.py" "tensordot" "axes_b" "[axes_b]" WList;
+  mkRW "_common.py" "_dot" "a_indptr" "np.empty(a.shape[0] + 1, dtype=np.intp)" WFresh;
+  mkRW "_common.py" "_dot" "b_indptr" "np.empty(b.shape[0] + 1, dtype=np.intp)" WFresh;
+  mkRW "_common.py" "_memoize_dtype.wrapped" "cache" "<unbound>" WMemo;
+  mkRW "_common.py" "_csr_csr_count_nnz" "mask" "np.full(n_col, -1)" WFresh;
+  mkRW "_common.py" "_csr_ndarray_count_nnz" "indptr" "<parameter>" WOutParam;
+  mkRW "_common.py" "_csc_ndarray_count_nnz" "indptr" "<parameter>" WOutParam;
+  mkRW "_common.py" "_csc_ndarray_count_nnz" "mask" "np.full(a_shape[0], -1)" WFresh;
+  mkRW "_common.py" "_dot_csr_csr_type._dot_csr_csr" "indptr" "np.empty(n_row + 1, dtype=np.intp)" WFresh;
+  mkRW "_common.py" "_dot_csr_csr_type._dot_csr_csr" "next_" "np.full(n_col, -1)" WFresh;
+  mkRW "_common.py" "_dot_csr_csr_type._dot_csr_csr" "indices" "np.empty(nnz, dtype=np.intp)" WFresh;
+  mkRW "_common.py" "_dot_csr_csr_type._dot_csr_csr" "data" "np.empty(nnz, dtype=dtr)" WFresh;
+  mkRW "_common.py" "_dot_csr_csr_type._dot_csr_csr" "sums" "np.zeros(n_col, dtype=dtr)" WFresh;
+  mkRW "_common.py" "_dot_csr_ndarray_type._dot_csr_ndarray" "val" "out[i]" WView;
+  mkRW "_common.py" "_dot_csr_ndarray_type_sparse._dot_csr_ndarray_sparse" "indptr" "np.empty(out_shape[0] + 1, dtype=np.intp)" WFresh;
+  mkRW "_common.py" "_dot_csr_ndarray_type_sparse._dot_csr_ndarray_sparse" "data" "np.empty(nnz, dtype=dtr)" WFresh;
+  mkRW "_common.py" "_dot_csr_ndarray_type_sparse._dot_csr_ndarray_sparse" "indices" "np.empty(nnz, dtype=np.intp)" WFresh;
+  mkRW "_common.py" "_dot_csc_ndarray_type_sparse._dot_csc_ndarray_sparse" "indptr" "np.empty(b_shape[1] + 1, dtype=np.intp)" WFresh;
+  mkRW "_common.py" "_dot_csc_ndarray_type_sparse._dot_csc_ndarray_sparse" "indices" "np.empty(nnz, dtype=np.intp)" WFresh;
+  mkRW "_common.py" "_dot_csc_ndarray_type_sparse._dot_csc_ndarray_sparse" "data" "np.empty(nnz, dtype=dtr)" WFresh;
+  mkRW "_common.py" "_dot_csc_ndarray_type_sparse._dot_csc_ndarray_sparse" "mask" "np.full(a_shape[0], -1)" WFresh;
+  mkRW "_common.py" "_dot_csc_ndarray_type_sparse._dot_csc_ndarray_sparse" "sums" "np.zeros(a_shape[0])" WFresh;
+  mkRW "_common.py" "_dot_csc_ndarray_type._dot_csc_ndarray" "val" "out[ind]" WView;
+  mkRW "_common.py" "_dot_coo_coo_type._dot_coo_coo" "next_" "np.full(n_col, -1)" WFresh;
+  mkRW "_common.py" "_dot_coo_coo_type._dot_coo_coo" "sums" "np.zeros(n_col, dtype=dtr)" WFresh;
+  mkRW "_common.py" "_dot_coo_coo_type._dot_coo_coo" "coords" "np.empty((2, nnz), dtype=np.intp)" WFresh;
+  mkRW "_common.py" "_dot_coo_coo_type._dot_coo_coo" "data" "np.empty(nnz, dtype=dtr)" WFresh;
+  mkRW "_common.py" "_dot_coo_ndarray_type._dot_coo_ndarray" "out" "np.zeros(out_shape, dtype=dtr)" WFresh;
+  mkRW "_common.py" "_dot_ndarray_coo_type._dot_ndarray_coo" "out" "np.zeros(out_shape, dtype=dtr)" WFresh;
+  mkRW "_common.py" "_parse_einsum_input" "split_subscripts" "input_tmp.split(',')" WList;
+  mkRW "_common.py" "_parse_einsum_input" "split_subscripts" "subscripts.split(',')" WList;
+  mkRW "_common.py" "outer" "out" "<parameter>" WUserOut;
+  mkRW "_common.py" "round" "out" "<parameter>" WUserOut;
+  mkRW "_compressed/compressed.py" "_from_coo" "indptr" "np.empty(row_size + 1, dtype=idx_dtype)" WFresh;
+  mkRW "_compressed/compressed.py" "_from_coo" "coords" "np.empty((2, x.nnz), dtype=idx_dtype)" WFresh;
+  mkRW "_compressed/compressed.py" "GCXS.__init__" "<argument 0 of _zero_of_dtype>" "self.data.dtype" WKernelReads;
+  mkRW "_compressed/compressed.py" "GCXS.mT" "axis" "list(range(self.ndim))" WList;
+  mkRW "_compressed/compressed.py" "GCXS.todense" "out" "np.full(self.shape, self.fill_value, self.dtype)" WFresh;
+  mkRW "_compressed/compressed.py" "GCXS._prune" "indptr" "np.empty(row_size + 1, dtype=self.indptr.dtype)" WFresh;
+  mkRW "_compressed/convert.py" "compute_flat" "cols" "<parameter>" WOutParam;
+  mkRW "_compressed/convert.py" "compute_flat" "positions" "np.zeros(len(increments) - 1, dtype=np.intp)" WFresh;
+  mkRW "_compressed/convert.py" "transform_shape" "shape_bins" "np.empty(len(shape), dtype=np.intp)" WFresh;
+  mkRW "_compressed/convert.py" "uncompress_dimension" "uncompressed" "np.empty(indptr[-1], dtype=indptr.dtype)" WFresh;
+  mkRW "_compressed/convert.py" "_linearize" "new_linear" "<parameter>" WOutParam;
+  mkRW "_compressed/convert.py" "_linearize" "new_coords" "<parameter>" WOutParam;
+  mkRW "_compressed/convert.py" "_1d_reshape" "indptr" "np.empty(row_size + 1, dtype=coords_dtype)" WFresh;
+  mkRW "_compressed/convert.py" "_c_ordering" "c_linear" "<parameter>" WOutParam;
+  mkRW "_compressed/convert.py" "_transpose" "indptr" "[]" WList;
+  mkRW "_compressed/convert.py" "_transpose" "indptr" "np.empty(row_size + 1, dtype=coords_dtype)" WFresh;
+  mkRW "_compressed/convert.py" "unravel_index" "out" "np.zeros(len(shape), dtype=np.intp)" WFresh;
+  mkRW "_compressed/convert.py" "_convert_coords" "new_linear" "<parameter>" WOutParam;
+  mkRW "_compressed/convert.py" "_convert_coords" "new_coords" "<parameter>" WOutParam;
+  mkRW "_compressed/indexing.py" "getitem" "indptr" "np.empty(row_size + 1, dtype=x.indptr.dtype)" WFresh;
+  mkRW "_compressed/indexing.py" "getitem" "indptr" "<item 2 of> arg" WFresh;
+  mkRW "_compressed/indexing.py" "getitem" "indptr" "None" WList;
+  mkRW "_compressed/indexing.py" "getitem" "indptr" "np.empty(shape[0] + 1, dtype=x.indptr.dtype)" WFresh;
+  mkRW "_compressed/indexing.py" "getitem" "indptr" "None" WList;
+  mkRW "_compressed/indexing.py" "getitem" "indptr" "np.empty(shape[0] + 1, dtype=x.indptr.dtype)" WFresh;
+  mkRW "_compressed/indexing.py" "getitem" "reordered_key" "[Nones_removed[i] for i in x._axis_order]" WList;
+  mkRW "_compressed/indexing.py" "getitem" "reordered_key" "List(reordered_key)" WList;
+  mkRW "_compressed/indexing.py" "getitem" "shape_key" "np.zeros(len(x.shape), dtype=np.intp)" WFresh;
+  mkRW "_compressed/indexing.py" "getitem" "compressed_axes" "np.array(compressed_axes)" WFresh;
+  mkRW "_compressed/indexing.py" "getitem" "compressed_axes" "tuple(compressed_axes)" WList;
+  mkRW "_compressed/indexing.py" "getitem" "compressed_axes" "shape_key[compressed_inds]" WFresh;
+  mkRW "_compressed/indexing.py" "getitem" "compressed_axes" "(0,)" WList;
+  mkRW "_compressed/indexing.py" "getitem" "compressed_axes" "(0,)" WList;
+  mkRW "_compressed/indexing.py" "getitem" "compressed_axes" "None" WList;
+  mkRW "_compressed/indexing.py" "getitem" "compressed_inds" "np.zeros(len(x.shape), dtype=np.bool_)" WFresh;
+  mkRW "_compressed/indexing.py" "getitem" "uncompressed_inds" "np.zeros(len(x.shape), dtype=np.bool_)" WFresh;
+  mkRW "_compressed/indexing.py" "get_slicing_selection" "indptr" "<parameter>" WOutParam;
+  mkRW "_compressed/indexing.py" "get_array_selection" "indptr" "<parameter>" WOutParam].
+
+(* the generated table and the reviewed table are equal as sets: a changed binding (x.coords.copy() replaced by an
+   alias), a new in-place write, or a deleted private copy (data = data.copy()) all break it *)
+Definition writes_reviewedb : bool :=
+  forallb (fun s => existsb (write_matches s) reviewed_writes) inplace_sites
+  && forallb (fun r => existsb (fun s => write_matches s r) inplace_sites) reviewed_writes.
